@@ -4,6 +4,7 @@ mod spec;
 mod pcorr;
 mod c01;
 mod c04;
+mod c07;
 mod c14;
 mod c20;
 
@@ -40,6 +41,7 @@ fn main() {
         "C13" => c13::run(&o),
         "C01" => c01::run(&o),
         "C04" => c04::run(&o),
+        "C07" => c07::run(&o),
         "C14" => c14::run(&o),
         "C20" => c20::run(&o),
         _ => {
